@@ -14,6 +14,9 @@ CHECKS = {
  "C15": dict(cat="exploration", technique="exhaustive enumeration of structured families of doubles, decimal strings and digit/radix arguments, each checked against exact arithmetic (shortest round-trip digits, Fractions, modular integers)",
     text="Every member of the structured families named by the property (all 2047 exponents x boundary mantissas, every power of 2 and 10 with neighbours, integers around 2^31/2^32/2^53/10^21, notation boundaries, d x 10^e strings for all exponents, exact halfway expansions, every digit count 0..100, every radix 2..36) is pushed through the real entry points (number_to_string / string_to_number directly; literals, String(), templates, |0, >>>0, <<, Number(), parseFloat, toFixed/toPrecision/toExponential/toString(radix) in-program) and compared with an exact reference: 80 k cases quick, 2.8 M thorough. The functions are pure, so enumeration of the families is a complete decision within them.",
     note="The 2^64 bit patterns are covered by structured families only (no claim beyond them). Reference: Python repr (shortest, closest, even), float() correctly rounded, Fraction arithmetic with the specification's tie rule; radix output compared only where exact.", ref="DESIGN.md section 5 C15"),
+ "C05": dict(cat="exploration", technique="exhaustive enumeration of token strings up to a length bound, of every depth of 68 nesting families, and of all single-token mutations of a program corpus, each prepared by the real parser/compiler in isolated workers with a deterministic parser-work counter",
+    text="All token strings of <=3 (thorough <=4) tokens over an 89-token JS/TS vocabulary and <=4 (<=5) over a 30-token one, joined with and without spaces, in script and module mode (6.3 M / 350 M parses); every depth 1..40 and doubling to 8192 (131072) of 68 nesting families incl. hostile speculative-parse families; every prefix, single-token deletion and replacement of 90 corpus programs; all 1-2 character strings over 42 characters in 14 lexical contexts. Oracle per text: prepare() returns Ok or Err - never a panic, a dead/hung worker, or more than 64*len^2+4096 token advances. Exploration with a deterministic work bound decides 'accepted or rejected cleanly, in polynomial time' for every enumerated text.",
+    note="8 MiB stack / 4 GiB address space per worker; &str API, so only valid UTF-8; polynomial bound is checked as the fixed quadratic budget above.", ref="DESIGN.md section 5 C05"),
 }
 NA_DEFAULT = "check not built yet (build in progress; see DESIGN.md section 8)"
 NA = {}
